@@ -1,5 +1,5 @@
 (* correspondence cases for the text formats (C05 C06, cache round trip) *)
-From Tola Require Import Py.Base Model.Fragment Model.Scaffold Model.Fasta Model.AgpTpf.
+From Tola Require Import Py.Base Model.Fragment Model.Scaffold Model.Fasta Model.AgpTpf Model.AsmFormat Corr.AsmFormatCorr.
 
 Inductive case :=
   | CFormatAgp (a : assembly) (obs : option str)
@@ -9,7 +9,9 @@ Inductive case :=
   (* Assembly.bp_per_texel from header lines: None = raised; Some None = no
      resolution line; Some (Some (floor, num, den)) observed float as
      1 + floor(x) and the exact decimal num/den *)
-  | CBpt (headers : list str) (obs : option (option Z)).
+  | CBpt (headers : list str) (obs : option (option Z))
+  (* one invocation of asm-format *)
+  | CAsmFormat (o : af_opts) (files : list (str * str)) (stdin : str) (raised : bool) (out err : str).
 
 Definition asm_eqb (a b : assembly) : bool :=
   strs_eqb (a_header a) (a_header b)
@@ -36,6 +38,7 @@ Definition check (c : case) : bool :=
          | Ok None => Ok None
          | Err e => Err e
          end) obs
+  | CAsmFormat o files stdin raised out err => af_check o files stdin raised out err
   end.
 
 Definition show (c : case) :=
@@ -45,4 +48,7 @@ Definition show (c : case) :=
   | CParseAgp t _ => (Ok [], parse_agp t)
   | CParseTpf t _ => (Ok [], parse_tpf t)
   | CBpt hs _ => (Ok [], Ok (mkAsm hs []))
+  | CAsmFormat o files stdin _ _ _ =>
+      let r := run o files stdin in
+      (match afr_exn r with Some e => Err e | None => Ok (afr_out r ++ afr_err r) end, Ok (mkAsm [] []))
   end.
